@@ -12,6 +12,10 @@
      "box"  a bounding-box point of an integer mass configuration m: same outputs
      "kal"  Kallen(x,y,z).doit() for the six orders of (X,Y,Z)/d
      "kaf"  Kallen(X/e^2, (B/e)^2, (C/e)^2).doit()  (factorisation at perfect squares)
+   Scaled family: "sc" = <<num, den>> is the mass scale lam at which the implementation was really
+   called (masses * lam, s * lam^2, exact rationals); s3 and kib are logged divided by lam^2 / lam^8
+   (both functions are homogeneous) and the indicator is scale invariant, so every clause is judged
+   on the integer point: an absolute tolerance or threshold in the implementation shows up here.
    Values: rationals <<num, den>> (den > 0; out-of-range values are clamped by the driver to
    +/-(2^31-1)/1 and can then only fail a comparison); indicator / outside values <<t, num, den>>
    with t = 0 rational, 1 NaN, 2 anything else.
@@ -31,13 +35,13 @@ One == <<0, 1, 1>>
 RatIs(v, n) == v[2] > 0 /\ v[1] = n * v[2]
 
 Counters == {"ev", "ev_boundary", "ev_massless", "ev_equalmass", "box", "box_inside", "box_outside",
-             "box_on_boundary", "box_s1_zero", "ov_nan", "ov_rational", "kal", "kaf"}
+             "box_on_boundary", "box_s1_zero", "ov_nan", "ov_rational", "kal", "kaf", "scaled"}
 Bump(c, names) == [n \in Counters |-> IF n \in names THEN c[n] + 1 ELSE c[n]]
 
 \* ---- physical events ---------------------------------------------------------------------
 EvStep ==
   LET P == Rec.p  M == MassesOf(P)  S == PairsOf(P)  kib == Kibble(S[1], S[2], S[3], M) IN
-  /\ Clause("HarnessInputs", Rec.M = M /\ Rec.s = <<S[1], S[2]>> /\ M[1] > 0, <<M, S>>)
+  /\ Clause("HarnessInputs", Rec.M = M /\ Rec.s = <<S[1], S[2]>> /\ M[1] > 0 /\ Rec.sc[1] > 0 /\ Rec.sc[2] > 0, <<M, S>>)
   /\ Clause("HarnessSpecSigma3", ThirdMandelstam(S[1], S[2], M) = S[3], <<M, S>>)
   /\ Clause("HarnessSpecKibble", kib <= 0, <<M, S, kib>>)
   /\ Clause("HarnessSpecPDG", (M[1] <= 49 /\ S[1] > 0) => InsidePDG(S[1], S[2], M), <<M, S>>)
@@ -49,7 +53,8 @@ EvStep ==
   /\ cnt' = Bump(cnt, {"ev"} \cup (IF kib = 0 THEN {"ev_boundary"} ELSE {})
                       \cup (IF M[2] = 0 \/ M[3] = 0 \/ M[4] = 0 THEN {"ev_massless"} ELSE {})
                       \cup (IF M[2] = M[3] \/ M[3] = M[4] \/ M[2] = M[4] THEN {"ev_equalmass"} ELSE {})
-                      \cup (IF Rec.ov[1] = 1 THEN {"ov_nan"} ELSE {"ov_rational"}))
+                      \cup (IF Rec.ov[1] = 1 THEN {"ov_nan"} ELSE {"ov_rational"})
+                      \cup (IF Rec.sc # <<1, 1>> THEN {"scaled"} ELSE {}))
 
 \* ---- bounding-box points -------------------------------------------------------------------
 BoxStep ==
@@ -57,7 +62,7 @@ BoxStep ==
       s3 == ThirdMandelstam(s1, s2, M)  kib == Kibble(s1, s2, s3, M)
       inside == InsidePDG(s1, s2, M) IN
   /\ Clause("HarnessInputs", m[1] > m[2] + m[3] + m[4] /\ m[2] >= 0 /\ m[3] >= 0 /\ m[4] >= 0
-                              /\ InBox(s1, s2, m) /\ Rec.ov # One, <<m, s1, s2>>)
+                              /\ InBox(s1, s2, m) /\ Rec.ov # One /\ Rec.sc[1] > 0 /\ Rec.sc[2] > 0, <<m, s1, s2>>)
   /\ Clause("HarnessSpecKibblePDG", IF s1 > 0 THEN (kib <= 0) <=> inside ELSE kib = 0, <<m, s1, s2, kib>>)
   /\ Clause("Sigma3Value", RatIs(Rec.s3, s3), <<m, s1, s2, Rec.s3, s3>>)
   /\ Clause("KibbleValue", RatIs(Rec.kib, kib), <<m, s1, s2, Rec.kib, kib>>)
@@ -67,7 +72,8 @@ BoxStep ==
   /\ Clause("IndicatorRange", Rec.ind = One \/ Rec.ind = Rec.ov, <<m, s1, s2, Rec.ov, Rec.ind>>)
   /\ cnt' = Bump(cnt, {"box"} \cup (IF s1 = 0 THEN {"box_s1_zero"} ELSE IF inside THEN {"box_inside"} ELSE {"box_outside"})
                       \cup (IF s1 > 0 /\ PdgDisc(s1, s2, M) = 0 THEN {"box_on_boundary"} ELSE {})
-                      \cup (IF Rec.ov[1] = 1 THEN {"ov_nan"} ELSE {"ov_rational"}))
+                      \cup (IF Rec.ov[1] = 1 THEN {"ov_nan"} ELSE {"ov_rational"})
+                      \cup (IF Rec.sc # <<1, 1>> THEN {"scaled"} ELSE {}))
 
 \* ---- Kallen ---------------------------------------------------------------------------------
 KalStep ==
